@@ -44,8 +44,9 @@ Record st := {
   flags : rflags;
   files : list (text * text);       (* virtual file system *)
   nfiles : N;                       (* filenames.len() *)
-  mlog : list key                   (* ghost: keys pushed by executed defmacro forms;
+  mlog : list key;                  (* ghost: keys pushed by executed defmacro forms;
                                        never read by the evaluator, only by the theorems *)
+  glog : list key                   (* ghost: keys whose global slot was written by defun *)
 }.
 
 Definition sget (s : st) (k : key) : binding :=
@@ -54,7 +55,7 @@ Definition sget (s : st) (k : key) : binding :=
 Definition sput (s : st) (k : key) (b : binding) : st :=
   {| store := PositiveMap.add k b (store s); next_id := next_id s; log := log s;
      steps := steps s; fail_at := fail_at s; htabs := htabs s; flags := flags s;
-     files := files s; nfiles := nfiles s; mlog := mlog s |}.
+     files := files s; nfiles := nfiles s; mlog := mlog s; glog := glog s |}.
 
 Lemma sget_sput_same s k b : sget (sput s k b) k = b.
 Proof. unfold sget, sput; simpl. rewrite PositiveMap.gss. reflexivity. Qed.
